@@ -1,6 +1,6 @@
 """C03: generators, renderers and Spec oracle for the wire decoders
 (bfd::Message::decode, RtrCodec::decode, PeerCodec::try_parse)."""
-import json
+import json, os
 from vp import val, coqrun
 from vp.val import cN, cbool, clist, cpair, cbytes
 from gen import hxpacket
@@ -40,6 +40,111 @@ def gen_bfd(rng, n):
         out.append(b)
     return [{'k': 'bfd', 'bytes': b} for b in out]
 
+# ------------------------------------------------------------------ RTR
+def be(n, w): return [(n >> (8 * (w - 1 - i))) & 0xff for i in range(w)]
+
+def rtr_pdu(rng, ty=None, version=None):
+    """A well-formed PDU of the given type (RFC 6810 / 8210)."""
+    if version is None: version = rng.choice([0, 1, 1, 2])
+    if ty is None: ty = rng.choice([0, 1, 2, 3, 4, 6, 7, 8, 10])
+    sid = rng.choice([0, 1, 7, 0xffff])
+    r32 = lambda: rng.choice([0, 1, 99, 0xffffffff, rng.randrange(1 << 32)])
+    if ty in (0, 1): body = be(r32(), 4)
+    elif ty in (2, 3, 8): body = []
+    elif ty == 4: body = [rng.randrange(2), rng.randrange(33), rng.randrange(33), 0] + [rng.randrange(256) for _ in range(4)] + be(r32(), 4)
+    elif ty == 6: body = [rng.randrange(2), rng.randrange(129), rng.randrange(129), 0] + [rng.randrange(256) for _ in range(16)] + be(r32(), 4)
+    elif ty == 7: body = be(r32(), 4) + (be(3600, 4) + be(600, 4) + be(7200, 4) if version >= 1 else [])
+    elif ty == 10:
+        enc = rng.choice([[], [1, 2, 0, 0, 0, 0, 0, 8]])
+        txt = [rng.randrange(32, 127) for _ in range(rng.choice([0, 5]))]
+        body = be(len(enc), 4) + enc + be(len(txt), 4) + txt
+    elif ty == 9:   # Router Key (RFC 8210 5.10): flags in the header, SKI, ASN, SPKI
+        body = [rng.randrange(256) for _ in range(20)] + be(r32(), 4) + [rng.randrange(256) for _ in range(rng.choice([0, 16, 91]))]
+    else: body = [rng.randrange(256) for _ in range(rng.choice([0, 4, 12]))]
+    return [version, ty] + be(sid, 2) + be(8 + len(body), 4) + body
+
+def fragment(rng, data):
+    """Arbitrary fragmentation of a byte string into chunks."""
+    x = rng.random()
+    if x < 0.3 or len(data) < 2:
+        return [list(data)]
+    if x < 0.45:
+        return [[b] for b in data]
+    n = rng.randint(1, min(6, len(data) - 1))
+    cuts = sorted(set(rng.randrange(1, len(data)) for _ in range(n)))
+    out, prev = [], 0
+    for c in cuts + [len(data)]:
+        out.append(list(data[prev:c])); prev = c
+    if rng.random() < 0.2:
+        out.insert(rng.randrange(len(out) + 1), [])
+    return out
+
+def gen_rtr(rng, n):
+    out = []
+    # every type alone, truncated at every offset
+    for ty in (0, 1, 2, 3, 4, 6, 7, 8, 10):
+        for ver in (0, 1):
+            p = rtr_pdu(rng, ty, ver)
+            out.append([p])
+            for k in range(len(p)):
+                out.append([p[:k]])
+            # length field boundary values
+            for L in (0, 1, 7, 8, len(p) - 1, len(p) + 1, 0xffffffff):
+                q = list(p); q[4:8] = be(L & 0xffffffff, 4)
+                out.append([q]); out.append([q + rtr_pdu(rng)])
+    for ty in (5, 9, 11, 255):
+        p = rtr_pdu(rng, ty, 1)
+        out.append([p]); out.append([p + rtr_pdu(rng, 2, 1)])
+    for _ in range(n):
+        pdus = [rtr_pdu(rng) for _ in range(rng.randint(1, 5))]
+        x = rng.random()
+        if x < 0.45:
+            k = rng.randrange(len(pdus)); q = pdus[k]
+            y = rng.random()
+            if y < 0.35: q[4:8] = be(rng.choice([0, 1, 2, 7, 8, 9, len(q) - 1, len(q) + 1, len(q) + 8, 12, 20, 32, 0x100, 0xffffffff]), 4)
+            elif y < 0.6: q[1] = rng.choice([5, 9, 11, 12, 128, 255, rng.randrange(256)])
+            elif y < 0.75: q[0] = rng.randrange(256)
+            elif y < 0.9: pdus[k] = q[:rng.randrange(len(q))]
+            else: pdus[k] = [rng.randrange(256) for _ in range(rng.randrange(1, 24))]
+        data = [b for q in pdus for b in q]
+        out.append(fragment(rng, data))
+    return [{'k': 'rtr', 'chunks': ch} for ch in out]
+
+def oracle_stream(c, o, complete, what):
+    """Property text on a chunk-fed decoder: no panic; a returned message consumed
+    input; a complete frame in the buffer is never answered "need more".
+    complete(buf) -> bool is written from the framing rule of the protocol."""
+    if o == PANIC:
+        return '%s panicked' % what
+    buf = []
+    chunks = list(c['chunks'])
+    k = 0
+    new_chunk = True
+    for e in o:
+        if new_chunk:
+            if k >= len(chunks):
+                return '%s harness protocol: more events than chunks' % what
+            buf = buf + chunks[k]; k += 1; new_chunk = False
+        if e[0] == 9:
+            return '%s returned a message without consuming any input (the caller spins)' % what
+        if e[0] == 8:
+            return '%s did not finish within the driver bound' % what
+        if e[0] == 0:
+            rem = e[2]
+            if rem >= len(buf):
+                return '%s returned a message without consuming any input' % what
+            buf = buf[len(buf) - rem:]
+        elif e[0] == 1:
+            if complete(buf):
+                return '%s asked for more bytes although a complete frame is buffered (stall)' % what
+            new_chunk = True
+        elif e[0] == 2:
+            return None
+    return None
+
+def rtr_complete(buf):
+    return len(buf) >= 8 and int.from_bytes(bytes(buf[4:8]), 'big') <= len(buf)
+
 def oracle_bfd(c, o):
     """Property text: a message or a drop, never a panic."""
     if o == PANIC:
@@ -69,11 +174,15 @@ class Prop:
     def case_to_val(self, c):
         if c['k'] == 'bfd':
             return [0, c['bytes']]
+        if c['k'] == 'rtr':
+            return [1, c['chunks']]
         raise ValueError(c)
 
     def case_to_coq(self, c):
         if c['k'] == 'bfd':
             return 'run_bfd %s' % cbytes(c['bytes'])
+        if c['k'] == 'rtr':
+            return '%s %s' % ('run_rtr_v0' if os.environ.get('C03_RTR_V0') else 'run_rtr', clist([cbytes(x) for x in c['chunks']]))
         raise ValueError(c)
 
     def case_to_json(self, c):
@@ -82,17 +191,26 @@ class Prop:
     def case_from_json(self, j):
         return j
 
+    def corpus_cases(self):
+        d = os.path.join(os.path.dirname(os.path.dirname(os.path.abspath(__file__))), 'corpus', 'C03')
+        out = []
+        if os.path.isdir(d):
+            for fn in sorted(os.listdir(d)):
+                if fn.endswith('.json'):
+                    out.append(self.case_from_json(json.load(open(os.path.join(d, fn)))['case']))
+        return out
+
     # ---- generation
     def gen_cases(self, rng, tier):
         q = tier == 'quick'
-        return gen_bfd(rng, 300 if q else 3000)
+        return gen_bfd(rng, 300 if q else 3000) + gen_rtr(rng, 600 if q else 6000)
 
     # ---- running
     def run_impl(self, cases, tier):
         return hxpacket.run_both('C03', [self.case_to_val(c) for c in cases])
 
     def run_model(self, cases, tier):
-        pre = 'From RB Require Import Base.Val Base.Bytes Model.Bfd.\nOpen Scope N_scope.'
+        pre = 'From RB Require Import Base.Val Base.Bytes Model.Bfd Model.Stream Model.Rtr.\nOpen Scope N_scope.'
         return coqrun.eval_terms('C03', pre, [self.case_to_coq(c) for c in cases])
 
     def canon(self, case, obs):
@@ -101,7 +219,9 @@ class Prop:
     # ---- Spec oracle on the implementation's observations [debug, release]
     def oracle(self, c, obs):
         for prof, o in zip(('debug', 'release'), obs):
-            why = oracle_bfd(c, o) if c['k'] == 'bfd' else None
+            if c['k'] == 'bfd': why = oracle_bfd(c, o)
+            elif c['k'] == 'rtr': why = oracle_stream(c, o, rtr_complete, 'RtrCodec::decode')
+            else: why = None
             if why:
                 return '%s build: %s' % (prof, why)
         return None
@@ -117,6 +237,11 @@ class Prop:
             if o[0] == 1 and o[1] == 0:
                 return None
             return ('bfd', o[0], o[1] if o[0] == 1 else (o[1], o[2]))
+        if c['k'] == 'rtr':
+            ms = tuple(e[1][0] for e in o if e[0] == 0)
+            if not ms and not any(e[0] == 2 for e in o):
+                return None
+            return ('rtr', ms, tuple(e[0] for e in o if e[0] != 0))
         return None
 
     def classify(self, c, obs):
@@ -125,4 +250,10 @@ class Prop:
             return [c['k'] + '_panic']
         if c['k'] == 'bfd':
             return ['bfd_ok' if o[0] == 0 else 'bfd_err_%d' % o[1]]
+        if c['k'] == 'rtr':
+            t = ['rtr_chunks_%s' % ('1' if len(c['chunks']) == 1 else '2+')]
+            if any(e[0] == 0 for e in o): t.append('rtr_msg')
+            if any(e[0] == 2 for e in o): t.append('rtr_error')
+            if o and o[-1][0] == 1 and o[-1][1] > 0: t.append('rtr_pending_bytes')
+            return t
         return []
